@@ -29,6 +29,9 @@ fn tname(t: u8) -> String {
 
 /// What the conversion matching the bound type must yield.
 fn expected_conv(p: &Param) -> Option<(&'static str, ConvVal)> {
+    if p.typ == wire::T_NULL {
+        return None;
+    }
     let v = p.value.as_ref()?;
     match (p.typ, v) {
         (t, PVal::Int(i)) => {
@@ -163,7 +166,7 @@ pub fn run(ctx: &Ctx) -> Report {
         // conversions
         let Some(CbKind::Execute { params: got, .. }) = obs.log.cbs.iter().map(|c| &c.kind).find(|k| matches!(k, CbKind::Execute { .. })) else { return };
         for (k, (p, g)) in params.iter().zip(got.iter()).enumerate() {
-            if let Some(PVal::Bytes(b)) = &p.value {
+            if let (Some(PVal::Bytes(b)), true) = (&p.value, p.typ != wire::T_NULL) {
                 if let (Ok(s), Some((_, res))) = (std::str::from_utf8(b), g.conv.iter().find(|(n, _)| *n == "str")) {
                     if *res != Ok(ConvVal::Str(s.to_string())) {
                         rep.violations.push(viol("C08", format!("C08 conv {} -> str differs", tname(p.typ)), format!("parameter {}: <&str>::from(value) = {:?}, the client sent {}", k, res, show(b)), d()));
